@@ -59,10 +59,16 @@ ProjInit == /\ applied \in [Apps -> 0..1]
         /\ after \in SUBSET Pairs
         /\ before \in SUBSET Pairs
         /\ Cardinality(after) + Cardinality(before) <= 2
-        /\ eafter \in SUBSET { <<a, <<b, i>>, 1>> : a \in Apps, b \in Apps, i \in 1..(1 + MaxPending) }
+        \* one per-evolution declaration at most: the k-th pending evolution of a is AFTER evolution i of
+        \* b (i = 0: the bare label of b).  b may be a ITSELF: a target earlier in the own SEQUENCE is
+        \* redundant, a later one (or the bare own label) contradicts the SEQUENCE and must be reported.
+        \* (An evolution naming itself is left out: the walk of get_ordered does not notice it.)
+        /\ eafter \in SUBSET { <<a, <<b, i>>, k>> : a \in Apps, b \in Apps, i \in 0..(1 + MaxPending),
+                                                   k \in 1..MaxPending }
         /\ Cardinality(eafter) <= 1
-        /\ \A e \in eafter : e[1] # e[2][1] /\ pending[e[1]] > 0
+        /\ \A e \in eafter : /\ e[3] <= pending[e[1]]
                               /\ e[2][2] <= applied[e[2][1]] + pending[e[2][1]]
+                              /\ ~(e[1] = e[2][1] /\ e[2][2] = applied[e[1]] + e[3])
         /\ \A a \in Apps : (applied[a] = 0 /\ pending[a] = 0) => newm[a]   \* canonical form
 
 Next == UNCHANGED vars
